@@ -36,12 +36,26 @@ def propagated(fn, c):
     """Is the Result of call c propagated with `?` (its Err outcome returns from the function)?"""
     if c.dest is None or c.target is None:
         return False
-    dl = c.dest["l"]
+    return propagated_local(fn, c.dest["l"], c.block)
+
+
+def propagated_local(fn, dl, from_block):
+    """Is the Result held in local dl (defined in from_block) propagated with `?` or returned?"""
+    alias = {dl}
+    for _ in range(3):      # plain copies of the result (`dest = move ret` of a spliced helper)
+        for b in fn.live:
+            for st in fn.blocks[b]["s"]:
+                a = st["rv"].get("a") if st["rv"]["k"] == "use" else None
+                pl = (a.get("move") or a.get("copy")) if isinstance(a, dict) else None
+                if pl is not None and not pl["p"] and pl["l"] in alias and not st["lhs"]["p"]:
+                    alias.add(st["lhs"]["l"])
+    if 0 in alias:
+        return True
     # find Try::branch on the destination
     for c2 in fn.calls():
         if (c2.declared or "").endswith("::branch") and c2.args:
             pl = c2.args[0].get("move") or c2.args[0].get("copy")
-            if pl is not None and pl["l"] == dl and fn.dominates(c.block, c2.block):
+            if pl is not None and pl["l"] in alias and (fn.dominates(from_block, c2.block) or c2.block in fn.reach([from_block])):
                 # the switch on the branch result: Break edge must lead to a return without local calls
                 S = c2.target
                 while S is not None and fn.blocks[S]["t"]["k"] == "goto":
@@ -219,8 +233,28 @@ def r1_guard_on_every_cycle(ctx):
                     continue
                 sites = edges[(a, b)]
                 where = sites[0].fn.where(sites[0].block)
+                nb = nesting_bound(ctx)
+                if a == b and a == nb["P"]:
+                    # the nesting predicate itself: it hands itself a budget one smaller and stops at zero
+                    pf = prog.fns[a]
+                    zero = False
+                    for S in sorted(pf.live):
+                        if pf.blocks[S]["t"]["k"] != "switch":
+                            continue
+                        si = pf.switch_info(S)
+                        if si["kind"] == "bin" and si["op"] in ("Eq", "Ne") and any(isinstance(o, dict) and o.get("int") == 0 for o in (si["a"], si["b"])):
+                            stop = [j for lab, j in pf.succ[S] if (lab != 0) == (si["op"] == "Eq")]
+                            rec_blocks = {c.block for c in pf.calls() if c.callee == a or any("{closure" in str(pf.locals[(x.get("move") or x.get("copy") or {"l": 0})["l"]]["ty"]) for x in c.args if isinstance(x, dict) and (x.get("move") or x.get("copy")))}
+                            if stop and not (pf.reach(stop) & rec_blocks):
+                                zero = True
+                    if zero:
+                        ctx.ok("depth-limited|%s" % a, where, "recursion on a budget that is decremented on every call and stops at zero (at most %s levels)" % nb["L"])
+                        continue
                 if a == b and a in DATA_DEPTH:
-                    ctx.ok("data-depth|%s" % a, where, "named exception: " + DATA_DEPTH[a])
+                    if nb["P"] is not None and nb["L"] is not None and all(ok for _f, _b, _k, ok, _w in nb["sites"]) and len(nb["sites"]) >= 3:
+                        ctx.ok("data-depth|%s" % a, where, "%s: at most %d levels (every place where nesting grows is checked against the limit - R3; the levels are priced into the stack budget - R2)" % (DATA_DEPTH[a], nb["L"]))
+                    else:
+                        ctx.bad("unguarded-data-recursion|%s" % a, where, "%s, with no stack probe, and nothing bounds the depth of the data (R3): a value nested a few thousand levels deep overflows the native stack when it is copied, relocated or printed" % DATA_DEPTH[a])
                     continue
                 ctx.bad("unguarded-edge|%s -> %s" % (a, b), where,
                         "recursive call edge with no dominating stack probe, inside the cycle {%s}: nesting the construct that drives it overflows the native stack" % ", ".join(sorted(x.split("::")[-1] for x in comp)))
@@ -255,6 +289,60 @@ def _addr_of_own_local(fn, operand):
             return not of["p"] and of["l"] > fn.argc
         return False
     return False
+
+
+SPAWNED_DEFAULT_STACK = 2 * 1024 * 1024     # std::thread's default for spawned threads (RUST_MIN_STACK unset)
+
+
+def interpreter_thread(ctx):
+    """On which thread does the CLI run the program?  -> (stack bytes, description).  The main thread unless a body from
+    which Runtime::run* is reachable is a closure handed to a thread-spawning call; then the stack is what
+    Builder::stack_size was given (evaluated constant), or std's default for spawned threads."""
+    binp = ctx.bin
+    if binp is None:
+        return THREAD_STACK, "main thread (assumed %d bytes)" % THREAD_STACK
+    cg = binp.callgraph()
+    runs = {k for k, g in binp.fns.items() for c in g.calls() if (c.callee or "").startswith("naijascript::runtime::Runtime::run")}
+
+    def reaches_run(start):
+        seen, st = set(), [start]
+        while st:
+            x = st.pop()
+            if x in seen:
+                continue
+            seen.add(x)
+            if x in runs:
+                return True
+            for cal in cg.get(x, {}):
+                if cal in binp.fns:
+                    st.append(cal)
+                st.extend(g.id for g in binp.closures_of(cal)) if cal in binp.fns else None
+            st.extend(g.id for g in binp.closures_of(x))
+        return False
+    for fid, fn in sorted(binp.fns.items()):
+        for c in fn.calls():
+            cal = c.callee or ""
+            if not re.search(r"std::thread::(Builder::)?(spawn|spawn_unchecked|spawn_scoped)$|std::thread::(scoped::)?Scope::spawn$", cal):
+                continue
+            txt = " ".join(sh(ne(fn.deep(a))) for a in c.args)
+            for m in re.finditer(r"\{closure#(\d+)\}", txt):
+                clo = "%s::{closure#%s}" % (parent_fn(fid), m.group(1))
+                if clo in binp.fns and reaches_run(clo):
+                    size = None
+                    for g in [binp.fns[k] for k in binp.fns if parent_fn(k) == parent_fn(fid)]:
+                        for c2 in g.calls():
+                            if (c2.callee or "").endswith("thread::Builder::stack_size") and len(c2.args) > 1:
+                                e = g.deep(c2.args[1])
+                                if e[0] == "const" and isinstance(e[2], int):
+                                    size = e[2]
+                                else:
+                                    cc = binp.consts.get(sh(ne(e))) or binp.consts.get(sh(ne(e)).split("::")[-1])
+                                    if isinstance(cc, dict):
+                                        size = cc.get("int") if cc.get("int") is not None else (int.from_bytes(bytes.fromhex(cc["bytes"]), "little") if cc.get("bytes") else None)
+                    if size is None:
+                        return SPAWNED_DEFAULT_STACK, "a thread spawned in %s with std's default stack (%d bytes)" % (parent_fn(fid), SPAWNED_DEFAULT_STACK)
+                    return size, "a thread spawned in %s with stack_size(%d)" % (parent_fn(fid), size)
+    return THREAD_STACK, "main thread (assumed %d bytes)" % THREAD_STACK
 
 
 def r2_probe_and_budget(ctx):
@@ -434,20 +522,16 @@ def r2_probe_and_budget(ctx):
         cyc = [sorted(comp) for i, comp in enumerate(comps) if len(comp) > 1]
         detail = "worst unprobed extension below %s: %d bytes over the condensed call graph (%d of %d bodies matched to code-generator frame sizes; unguarded cycles %s counted once - their depth is reported by R1)" % (start, ext, matched, len(prog.fns), [len(x) for x in cyc])
         ctx.note(detail)
-    # The recursions over the nesting depth of run-time data (named exceptions of R1: clone_into, promote, detach, Display,
-    # join) are not probed.  They are bounded by what a script can build: wrapping a nest of depth k once more copies it into
-    # the persistent arena (>= k * size_of::<Value>() bytes that are never reclaimed), so depth d costs >= V * d^2 / 2 bytes of
-    # an arena of C bytes: d <= sqrt(2C / V).  That many levels of the fattest of those frames must fit above the budget too.
-    import math
-    cap = None
-    cc = (ctx.bin.consts.get("SCRATCH_ARENA_CAPACITY") if ctx.bin is not None else None)
-    if isinstance(cc, dict) and cc.get("bytes"):
-        cap = int.from_bytes(bytes.fromhex(cc["bytes"]), "little")
-    vsize = (prog.adts.get("runtime::Value") or {}).get("size")
-    if not cap or not vsize:
-        ctx.bad("budget|data-depth-inputs", "src/bin/naija/main.rs", "cannot evaluate the arena capacity (%s) / the size of Value (%s) that bound the depth of run-time data" % (cap, vsize))
+    # The recursions over the nesting depth of run-time data (clone_into, promote, detach, Display, join, drop glue) are not
+    # probed - they cannot report an error.  They are bounded by the nesting limit the runtime enforces wherever nesting can
+    # grow (R3).  That many levels of the fattest of those frames must fit above the budget too.
+    # (An earlier version of this rule derived a bound from arena exhaustion - sqrt(2C/V) levels, assuming one level per
+    # copy.  A literal can add many levels per copy (`a get [[[[a]]]]`), so that bound was wrong and hid a genuine defect, D30.)
+    nb = nesting_bound(ctx)
+    if nb["P"] is None or nb["L"] is None:
+        ctx.bad("budget|data-depth-unbounded", "src/runtime.rs", "the depth of run-time data is not bounded (R3), so no stack budget can cover the unprobed recursions over it")
         return
-    d_max = math.isqrt(2 * cap // vsize)
+    d_max = nb["L"]
     STD_PER_LEVEL = 128
     if sizes is not None:
         per_level = max([sizes.get(frames._canon(f), UNKNOWN_FRAME) for f in DATA_DEPTH] + [0]) + STD_PER_LEVEL
@@ -456,7 +540,7 @@ def r2_probe_and_budget(ctx):
         per_level = 512 + STD_PER_LEVEL
         how = "default frame 512 + %d" % STD_PER_LEVEL
     data_allow = d_max * per_level
-    ctx.note("data-depth bound: arena %d bytes, size_of(Value) %d -> at most %d nesting levels; %d bytes per level (%s) -> %d bytes" % (cap, vsize, d_max, per_level, how, data_allow))
+    ctx.note("data-depth bound: nesting limit %d levels (R3); %d bytes per level (%s) -> %d bytes" % (d_max, per_level, how, data_allow))
     # no body keeps an array of 64 KiB or more in a local (visible in the types of MIR locals, so also without frame sizes)
     nbig = 0
     for progx, tag in ((prog, "lib"), (ctx.bin, "bin")):
@@ -505,10 +589,251 @@ def r2_probe_and_budget(ctx):
             ctx.note("frames above the anchor: %d bytes (%s)" % (above, above_how))
     need = budget + (ext if ext is not None else 256 * 1024) + data_allow + above + EXTERNAL_ALLOWANCE
     parts = "STACK_BUDGET %d + frames above the anchor %d (%s) + unprobed extension %s + data-depth recursion %d (%d levels x %d) + external allowance %d" % (budget, above, above_how, ext if ext is not None else "256 KiB (default)", data_allow, d_max, per_level, EXTERNAL_ALLOWANCE)
-    if need <= THREAD_STACK:
-        ctx.ok("budget|fits-thread-stack", "src/runtime.rs", "%s = %d <= %d" % (parts, need, THREAD_STACK))
+    stack, stack_how = interpreter_thread(ctx)
+    stack = min(stack, THREAD_STACK) if stack_how.startswith("main") else stack
+    if need <= stack:
+        ctx.ok("budget|fits-thread-stack", "src/runtime.rs", "%s = %d <= %d, the stack of %s" % (parts, need, stack, stack_how))
     else:
-        ctx.bad("budget|exceeds-thread-stack", "src/runtime.rs", "%s = %d bytes, more than the %d-byte main-thread stack: recursion that is not probed (formatting, copying or relocating a deeply nested array; whatever runs after the last successful probe) hits the guard page before check_stack can report 'Call stack don full'" % (parts, need, THREAD_STACK))
+        ctx.bad("budget|exceeds-thread-stack", "src/runtime.rs", "%s = %d bytes, more than the %d-byte stack of %s: recursion that is not probed (formatting, copying or relocating a deeply nested array; whatever runs after the last successful probe) hits the guard page before check_stack can report 'Call stack don full'" % (parts, need, stack, stack_how))
+
+
+# ---------------------------------------------------------------------------------------------------------------------
+# R3: the depth of run-time data is bounded where it grows
+def _named_texts(fn, operand):
+    """Texts of what an operand can be, with the depth-preserving wrappers (promote / detach / clone_into) peeled off."""
+    out = set()
+    for e in fn.alt_exprs(operand) or [fn.deep(operand)]:
+        t = sh(ne(e))
+        for _ in range(4):
+            m = re.match(r"^&?(?:promote|detach|clone_into)\((.*)$", t)
+            if not m:
+                break
+            # first argument of the wrapper
+            depth, i, arg = 0, 0, m.group(1)
+            for i, ch in enumerate(arg):
+                if ch in "([{":
+                    depth += 1
+                elif ch in ")]}":
+                    if depth == 0:
+                        break
+                    depth -= 1
+                elif ch == "," and depth == 0:
+                    break
+            t = arg[:i]
+        out.add(re.sub(r"^[&*]+", "", t))
+    return out
+
+
+def _ref_target(fn, operand):
+    pl = (operand.get("move") or operand.get("copy")) if isinstance(operand, dict) else None
+    hops = 0
+    while pl is not None and not pl["p"] and hops < 4:
+        defs = fn.whole_defs(pl["l"])
+        if len(defs) != 1 or defs[0][1] == "t":
+            return pl["l"]
+        rv = defs[0][2]["rv"]
+        if rv["k"] in ("ref", "rawptr"):
+            return rv["of"]["l"]
+        if rv["k"] == "use" and isinstance(rv["a"], dict):
+            pl = rv["a"].get("move") or rv["a"].get("copy")
+            hops += 1
+            continue
+        return pl["l"]
+    return pl["l"] if pl is not None else None
+
+
+def fam_calls(prog, fid):
+    """Calls of a body into the evaluator (a checking *helper* has none: it only looks at the value it is given)."""
+    fn = prog.fns[fid]
+    return [c for c in fn.calls() if (c.callee or "").startswith("runtime::Runtime::eval_") or (c.callee or "").startswith("runtime::Runtime::exec_")]
+
+
+def nesting_bound(ctx):
+    """Find the mechanism that bounds how deep arrays can be nested inside arrays, and every place where nesting can grow.
+    -> dict(P=<depth predicate>, L=<limit>, guards={routine ids}, sites=[(fn, block, kind, ok, why)])"""
+    if getattr(ctx, "_nest", None) is not None and ctx._nest[0] == id(ctx.lib):
+        return ctx._nest[1]
+    prog = ctx.lib
+    res = dict(P=None, L=None, guards=set(), sites=[])
+    # the depth predicate: bool f(&Value, usize) in runtime.rs that calls itself with the budget decremented
+    for fid, fn in sorted(prog.fns.items()):
+        if fn.file != "src/runtime.rs" or "{closure" in fid:
+            continue
+        tys = [l["ty"] for l in fn.locals[:fn.argc + 1]]
+        if not tys or tys[0] != "bool" or "usize" not in tys[1:] or not any(t.startswith("&") and "runtime::Value" in t for t in tys[1:]):
+            continue
+        fam = [fn] + list(prog.closures_of(fid))
+        rec = [(g, c) for g in fam for c in g.calls() if c.callee == fid]
+        if not rec:
+            continue
+        pidx = tys[1:].index("usize")
+        if all(re.match(r"^Sub\(.+,1\)$", sh(ne(g.deep(c.args[pidx])))) for g, c in rec if len(c.args) > pidx):
+            res["P"] = fid
+            res["pidx"] = pidx
+            break
+    P = res["P"]
+    events = {}      # fn id -> [(block of the test, operand holding the tested value)]
+    helper_param = {}  # checking routine -> index of its value parameter
+    if P is not None:
+        pfam = {P} | {g.id for g in prog.closures_of(P)}
+        limits = []
+        vidx = 1 - res["pidx"] if res["pidx"] in (0, 1) else 0
+        for fid, fn in sorted(prog.fns.items()):
+            if fid in pfam:
+                continue
+            for c in fn.calls():
+                if c.callee != P or len(c.args) <= res["pidx"]:
+                    continue
+                t = sh(ne(fn.deep(c.args[res["pidx"]])))
+                m = re.match(r"^(?:Sub\()?(\d+)\b", t)
+                limits.append(int(m.group(1)) if m else None)
+                # the outcome "deeper" must end in Err on every path
+                S = c.target
+                while S is not None and fn.blocks[S]["t"]["k"] == "goto":
+                    S = fn.blocks[S]["t"]["t"]
+                if S is not None and fn.blocks[S]["t"]["k"] == "switch":
+                    deeper = [j for lab, j in fn.succ[S] if lab != 0]
+                    # straight from the "deeper" outcome to an Err that is returned or propagated with `?`
+                    errs = True
+                    rlocal = None
+                    for j in deeper:
+                        hops, found = 0, False
+                        while j is not None and hops < 8 and not found:
+                            for st in fn.blocks[j]["s"]:
+                                if st["rv"]["k"] == "agg" and st["rv"].get("variant") == "Err" and not st["lhs"]["p"]:
+                                    found = st["lhs"]["l"] == 0 or propagated_local(fn, st["lhs"]["l"], j)
+                                    if found:
+                                        rlocal = st["lhs"]["l"]
+                            nxt = [t_ for _l, t_ in fn.succ[j]]
+                            j = nxt[0] if len(nxt) == 1 else None
+                            hops += 1
+                        errs = errs and found
+                    if deeper and errs:
+                        events.setdefault(fid, []).append((c.block, c.args[vidx], S, rlocal))
+                        e = fn.deep(c.args[vidx])
+                        while e[0] in ("ref", "deref"):
+                            e = e[1]
+                        if e[0] in ("var", "arg") and len(fam_calls(prog, fid)) == 0:
+                            l = e[2] if e[0] == "var" and len(e) > 2 else (e[1] if e[0] == "arg" else None)
+                            if isinstance(l, int) and 0 < l <= fn.argc:
+                                helper_param[parent_fn(fid)] = l - 1
+                                res["guards"].add(parent_fn(fid))
+        if limits and all(x is not None for x in limits):
+            res["L"] = max(limits)
+    guards = res["guards"]
+
+    def guard_calls(fn):
+        """(block, operand with the checked value) of every nesting test that covers what follows it in fn."""
+        out = list(events.get(fn.id, []))
+        for c in fn.calls():
+            if c.callee and parent_fn(c.callee) in helper_param and propagated(fn, c) and len(c.args) > helper_param[parent_fn(c.callee)]:
+                out.append((c.block, c.args[helper_param[parent_fn(c.callee)]], None, None))
+        return out
+
+    def covers(fn, ev, block):
+        """Every path to `block` has passed the nesting test `ev` with the outcome "not deeper"."""
+        gb, gv, S, rlocal = ev
+        if S is None:
+            return gb != block and fn.dominates(gb, block)
+        # an inline test: without its "not deeper" edge the block must be unreachable (the Result of a spliced helper is
+        # followed through its `?`)
+        return block not in fn.reach_threaded([0], [rlocal] if rlocal else [], removed_edges=[(S, 0)])
+    copy_family = set(DATA_DEPTH) | {P}
+    for fn in sorted([f for f in prog.fns.values() if f.file in ("src/runtime.rs", "src/builtins/array.rs")], key=lambda f: (f.line, f.id)):
+        pid = parent_fn(fn.id)
+        if pid in copy_family or pid in helper_param:
+            continue
+        gcs = guard_calls(fn)
+        for c in fn.calls():
+            cal = c.callee or ""
+            kind = stored = None
+            if cal == "builtins::array::ArrayBuiltin::push" and fn.file == "src/runtime.rs":
+                kind, stored = "push", c.args[1]
+            elif cal in ("std::mem::replace", "core::mem::replace") and len(c.args) == 2 and "runtime::Value" in (fn.locals[(c.args[1].get("move") or c.args[1].get("copy") or {"l": 0})["l"]]["ty"] if isinstance(c.args[1], dict) and (c.args[1].get("move") or c.args[1].get("copy")) else ""):
+                dst = sh(ne(fn.deep(c.args[0])))
+                if re.search(r"index_mut\(|get_unchecked_mut\(|get_mut\(|\[", dst):
+                    kind, stored = "element-write", c.args[1]
+            if kind is None:
+                continue
+            texts = _named_texts(fn, stored)
+            if all(re.match(r"^Value::(Str|Number|Bool|Null)\b", t) for t in texts):
+                continue        # a constant of a heap-free kind (taking a value out of its place)
+            ok = False
+            why = "no nesting check on the stored value dominates the store"
+            for ev in gcs:
+                gb, gv = ev[0], ev[1]
+                if covers(fn, ev, c.block) and (_named_texts(fn, gv) & texts):
+                    ok, why = True, "a propagated nesting check of `%s` dominates the store" % sorted(_named_texts(fn, gv))[0][:40]
+            res["sites"].append((fn, c.block, kind, ok, why))
+        # a fresh array built from evaluated items
+        for b in sorted(fn.live):
+            for st in fn.blocks[b]["s"]:
+                rv = st["rv"]
+                if not (rv["k"] == "agg" and rv["adt"].endswith("runtime::Value") and rv.get("variant") == "Array"):
+                    continue
+                vec = (rv["ops"][0].get("move") or rv["ops"][0].get("copy")) if isinstance(rv["ops"][0], dict) else None
+                hops = 0
+                while vec is not None and not vec["p"] and hops < 4:
+                    dd = fn.whole_defs(vec["l"])
+                    if len(dd) == 1 and dd[0][1] != "t" and dd[0][2]["rv"]["k"] == "use" and isinstance(dd[0][2]["rv"]["a"], dict):
+                        nx = dd[0][2]["rv"]["a"].get("move") or dd[0][2]["rv"]["a"].get("copy")
+                        if nx is None or nx["p"]:
+                            break
+                        vec, hops = nx, hops + 1
+                    else:
+                        break
+                if vec is None:
+                    continue
+                # what was pushed into that vector
+                items = [c2 for c2 in fn.calls() if (c2.callee or "").endswith("Vec::push") and c2.args and _ref_target(fn, c2.args[0]) == vec["l"]]
+                unknown = [c2 for c2 in items if not re.match(r"^Value::(Str|Number|Bool|Null)\b", sh(ne(fn.deep(c2.args[1]))))]
+                if not unknown:
+                    continue        # strings / numbers only (split, ...): depth 1
+                target = st["lhs"]["l"]
+                exits_ok = {bb for bb in fn.live for s2 in fn.blocks[bb]["s"] if s2["lhs"]["l"] == 0 and s2["rv"]["k"] == "agg" and s2["rv"].get("variant") == "Ok"}
+                ok = False
+                for ev in gcs:
+                    gb, gv, S, rlocal = ev
+                    if _ref_target(fn, gv) != target and not ({"Value::Array" + t[len("Value::Array"):] for t in _named_texts(fn, gv) if t.startswith("Value::Array")} and fn.dominates(b, gb)):
+                        continue
+                    if S is None:
+                        # (the call is the terminator of its block: a check in the block that builds the array covers all that follows)
+                        leak = set() if gb == b else fn.reach([b], removed_nodes={gb}) & exits_ok
+                    else:
+                        leak = fn.reach_threaded([b], [rlocal] if rlocal else [], removed_edges=[(S, 0)]) & exits_ok
+                    if not leak:
+                        ok = True
+                res["sites"].append((fn, b, "literal", ok, "the nesting check on the new array lies on every path to the Ok return" if ok else "the new array reaches the Ok return without a nesting check"))
+    ctx._nest = (id(ctx.lib), res)
+    return res
+
+
+def r3_data_depth_is_bounded(ctx):
+    """Copying, relocating, dropping and printing a value recurse once per nesting level of arrays inside arrays, with no
+    stack probe (they cannot report an error).  That is only safe if the depth itself is bounded: there is a depth-limited
+    predicate, a routine that turns "deeper than L" into an error, and every place where nesting can grow - a new array built
+    from evaluated items, a value pushed into an array, a value written over an element - is covered by a propagated call of
+    that routine on the value concerned.  R2 then prices L levels of the measured per-level cost into the stack budget."""
+    nb = nesting_bound(ctx)
+    if nb["P"] is None or nb["L"] is None or not nb["guards"]:
+        ctx.bad("nesting|no-bound", ctx.need("runtime::Value::clone_into").where(),
+                "nothing bounds how deep arrays can be nested inside arrays (no depth-limited predicate over a Value whose 'too deep' outcome becomes an error): %d places let a script add a level per step, and a few thousand levels (a loop around `a get [[[[..a..]]]]`) are enough for the unprobed recursions over the data - copy, relocation, drop, printing - to overflow the native stack" % len(nb["sites"]))
+    else:
+        ctx.ok("nesting|bound", ctx.need(nb["P"]).where(), "%s bounds nesting at %d levels; checking routine(s): %s" % (nb["P"].split("::")[-1], nb["L"], sorted(x.split("::")[-1] for x in nb["guards"])))
+    seen = {}
+    for fn, b, kind, ok, why in nb["sites"]:
+        ctx.touch(fn)
+        short = parent_fn(fn.id).split("::")[-1]
+        o = seen[(short, kind)] = seen.get((short, kind), 0) + 1
+        key = "nesting|grow|%s|%s#%d" % (short, kind, o)
+        if nb["P"] is None:
+            continue        # reported once above
+        if ok:
+            ctx.ok(key, fn.where(b), why)
+        else:
+            ctx.bad(key, fn.where(b), "%s (%s in %s): nesting can grow here without limit, so the unprobed recursions over a value's depth are unbounded again" % (why, kind, short))
+    ctx.floor("places where array nesting can grow", len(nb["sites"]), 3)
+
 
 
 _FRAMES = {}
@@ -522,7 +847,7 @@ def _frames(ctx):
     return _FRAMES[key]
 
 
-RULES = [("C08-R1", r1_guard_on_every_cycle), ("C08-R2", r2_probe_and_budget)]
+RULES = [("C08-R1", r1_guard_on_every_cycle), ("C08-R2", r2_probe_and_budget), ("C08-R3", r3_data_depth_is_bounded)]
 
 EXPLANATION = (
     "R1: resolved call graph of the whole library (closures merged into their parents, Display::fmt edges added), every "
@@ -539,10 +864,12 @@ EXPLANATION = (
     "which a known unguarded cycle overflows, release-profile frames (LTO: fixed at link time), nor std-internal frames."
 )
 EXPLANATION += (
-    " R2 also: the named data-depth recursions are bounded quantitatively - at most sqrt(2 * SCRATCH_ARENA_CAPACITY / size_of(Value)) nesting levels (evaluated constant, compiler layout) times the fattest of their frames - and the frames the CLI keeps above the stack anchor are added (thorough: from the linked executable's .stack_sizes); no local array of 64 KiB or more in any body."
+    " R2 also: the frames the CLI keeps above the stack anchor are added (thorough: from the linked executable's .stack_sizes); no local array of 64 KiB or more in any body; the thread on which the CLI runs the program is found (a closure handed to a thread-spawning call from which Runtime::run* is reachable) and its stack size read from Builder::stack_size - the main thread's 8 MiB is only assumed when there is no such thread."
+    " R3: the recursions over the depth of run-time data (copy, relocation, drop, printing) cannot probe the stack; they are accepted only because nesting is bounded where it grows: there is a depth-limited predicate over a Value (it calls itself with its budget decremented and stops at zero), a routine whose 'too deep' outcome is an Err, and every growth site - a Value::Array built from a vector that received evaluated items, ArrayBuiltin::push, a write over an element of a Vec<Value> - found by type, is covered by a propagated call of that routine on the value concerned (dominance; for a check spliced in from a new helper the Result is followed through its `?`). R1 accepts the data-depth recursions only when R3 holds; R2 adds limit x per-level frame to what must fit the stack. One genuine defect (D30) was hidden by an earlier, wrong arena-exhaustion bound and is repaired."
 )
 ASSUMPTIONS = [
-    "recursion over run-time data depth (clone_into, promote, Display, join) is bounded by arena exhaustion - named exceptions",
+    "the per-level stack cost of the data-depth recursions is the fattest of their own frames plus 128 bytes of formatting machinery (dev profile measured; release assumed 640 bytes)",
+    "compiler-generated drop glue over a nested value costs no more per level than the measured copy/print routines",
     "indirect calls through function pointers do not exist in the crate (none exported); drop glue is not modelled",
     "the interpreter runs on a thread with at least 8 MiB of stack (Linux main thread default); std/libc frames below the interpreter's own need at most 128 KiB",
 ]
